@@ -17,10 +17,11 @@ Tr == JsonDeserialize(IOEnv.TRACE_FILE)
 
 \* the pipeline order (a stage may be skipped, never taken backwards); the quoting stages share a rank
 Rank(n) == CASE n = "ensure_protocol" -> 1 [] n = "urlsplit" -> 2 [] n = "decode_punycode_hostname" -> 3
-             [] n = "normpath" -> 4
-             [] n \in {"safely_unquote_auth_item", "safely_unquote_path", "safely_unquote_qsl", "safely_unquote_fragment",
-                       "safely_quote", "safely_quote_qsl"} -> 5
-             [] n = "unsplit_netloc" -> 6 [] n = "urlunsplit" -> 7 [] OTHER -> 0
+             [] n = "safely_unquote_path" -> 4       \* before dot segments are resolved ('%2E%2E' is '..')
+             [] n = "normpath" -> 5
+             [] n \in {"safely_unquote_auth_item", "safely_unquote_qsl", "safely_unquote_fragment",
+                       "safely_quote", "safely_quote_qsl"} -> 6
+             [] n = "unsplit_netloc" -> 7 [] n = "urlunsplit" -> 8 [] OTHER -> 0
 Bad(ok, name) == IF ok THEN {} ELSE {name}
 QslOk(f, inItems, outItems) ==
   /\ Len(inItems) = Len(outItems)
@@ -57,7 +58,7 @@ TrNext ==
           THEN LET bad == IF reg.ok THEN StageFailing(e) \cup Bad(Rank(e.name) >= reg.pos, "stage-order") ELSE {}
                IN /\ reg' = [pos |-> Rank(e.name), last |-> e.res, ok |-> reg.ok] /\ UNCHANGED <<url, cur>>
                   /\ (IF bad = {} THEN TRUE ELSE PrintT(<<"VERDICT", e.id, bad, Triggers(e)>>))
-          ELSE LET bad == IF e.exc # "" \/ ~reg.ok THEN {} ELSE Bad(reg.pos # 7 \/ reg.last = e.r, "result-is-last-stage")
+          ELSE LET bad == IF e.exc # "" \/ ~reg.ok THEN {} ELSE Bad(reg.pos # 8 \/ reg.last = e.r, "result-is-last-stage")
                IN /\ cur' = e.r /\ UNCHANGED <<url, reg>>
                   /\ (IF bad = {} THEN TRUE ELSE PrintT(<<"VERDICT", e.id, bad, Triggers(e)>>))
   /\ (IF l < Len(Tr) THEN TRUE ELSE PrintT(<<"TRACE-DONE", l>>))
